@@ -42,12 +42,17 @@ class Loop:
 
 
 class Ghost:
-    def __init__(self, code, *, before=None, after=None, occurrence=0):
-        assert (before is None) != (after is None)
+    """Ghost code attached to the real source by a statement anchor (normalised text; a trailing '...' makes it a
+    prefix match), or at normal function exit (at_exit=True). optional=True: if the anchor statement no longer
+    exists the ghost code is skipped (the contract must then fail on its own) instead of 'does not attach'."""
+
+    def __init__(self, code, *, before=None, after=None, occurrence=0, at_exit=False, optional=False):
+        assert at_exit or ((before is None) != (after is None))
         self.code = code
-        self.where = "before" if before is not None else "after"
-        self.anchor = " ".join((before if before is not None else after).split())
+        self.where = "exit" if at_exit else ("before" if before is not None else "after")
+        self.anchor = "" if at_exit else " ".join((before if before is not None else after).split())
         self.occurrence = occurrence
+        self.optional = optional
 
 
 class Contract:
